@@ -592,9 +592,12 @@ def block_adaptive_prefactor(ctx, tm, psi):
     ctx.evald(("adaptive-prefactor", tm.label, nm, abs(c) > 1))
     run.count(f"adaptive-prefactor:{'large' if abs(c) > 1 else 'small'}")
     tol = 400 * rtol * nv
-    if e_plain <= tol and not e_scaled <= tol:
+    # the controller sees relative errors only: both runs take the same steps and agree to rounding
+    diff = float(np.linalg.norm(dense_state(scaled) / c - dense_state(plain)))
+    if (e_plain <= tol and not e_scaled <= tol) or diff > 1e-7 * nv:
         run.violation(f"{nm}:adaptive:result-depends-on-prefactor",
-                      replay_base(tm, v0, spec, T=T, prefactor=str(c), err_coeff_1=e_plain, err_with_prefactor=e_scaled, tol=tol))
+                      replay_base(tm, v0, spec, T=T, prefactor=str(c), err_coeff_1=e_plain, err_with_prefactor=e_scaled, tol=tol,
+                                  difference_between_the_two_runs=diff))
 
 
 @timed
